@@ -6,6 +6,7 @@
 #include "vharness.h"
 #define V_STUB_BUG_UNREACHABLE
 #define V_STUB_STO
+#define V_STUB_MEMCHR
 #include "stubs.h"
 #define C_BUFFER_HARNESS_SUPPORT
 #include "c_buffer.h"
